@@ -28,7 +28,7 @@ roller's own `recorded w t succ`).
   twice in `inWin g w` (each bucket at most once in the reservoir, the current bucket not in it), different windows
   share no bucket.
 * §E–F log and bucket-sum lemmas; `fold_trim`: the model's wrapped fold over the trimmed reservoir is the exact sum.
-* §G the guard (`NoWrap`, `TB`, `SchedOK`: readings within `±2^61`, `0 < interval, window ≤ 2^61`, fewer than `2^61`
+* §G the guard (`WNoWrap`, `TB`, `SchedOK`: readings within `±2^61`, `0 < interval, window ≤ 2^61`, fewer than `2^61`
   schedule entries), the per-thread promise `LOk` (a pending roller read `t ≥ ts(loaded bucket) + interval`), the
   global invariant `WGInv` with the counting equation
   `∀ x ≥ lim w, bsum g k (inWin g w) x = recN w k x lg`, "the current bucket's timestamp is the last roll's tick",
@@ -751,7 +751,7 @@ theorem selB_add (k : Bool) (bk : Bucket) (b : Bool) (h : 0 ≤ selB b bk ∧ se
 /-- a ticker reading in the guarded range -/
 def TB (t : Int) : Prop := -(2^61) ≤ t ∧ t ≤ 2^61
 
-def NoWrap (cfg : Config) : Prop :=
+def WNoWrap (cfg : Config) : Prop :=
   0 < cfg.interval ∧ cfg.interval ≤ 2^61 ∧ 0 < cfg.window ∧ cfg.window ≤ 2^61
 
 def TickOK : Act → Prop
@@ -1023,7 +1023,7 @@ theorem ginv_add {cfg : Config} {n : Nat} {lg : List (Tid × Obs)} {g g' : CG} (
 
 theorem ginv_roll {cfg : Config} {n : Nat} {lg : List (Tid × Obs)} {g g' g1 : CG} (t : Tid) {w : Nat} {tt : Int}
     {sc : Bool} {kept : List Nat}
-    (hS : SInv g) (hG : WGInv cfg n lg g) (hn : n < 2^61) (hcfg : NoWrap cfg) (hw : w < g.wins.length) (ht : TB tt)
+    (hS : SInv g) (hG : WGInv cfg n lg g) (hn : n < 2^61) (hcfg : WNoWrap cfg) (hw : w < g.wins.length) (ht : TB tt)
     (hint : (g.bucket (g.win w).cur).ts + cfg.interval ≤ tt) (ho : ObjsStep g g')
     (hg1 : g1.buckets = g.buckets ++ [mkBucket tt sc])
     (hk : kept = trimIds g1 (wrap64 (tt - cfg.window)) ((g.win w).res ++ [(g.win w).cur]))
@@ -1168,7 +1168,7 @@ theorem ginv_new {cfg : Config} {n : Nat} {lg : List (Tid × Obs)} {g g' : CG} {
 
 /-- the stepping thread's next locals are justified -/
 theorem step_lok {cfg : Config} {t : Tid} {g g' : CG} {l l' : L} {a : Act} {obs : List Obs}
-    (hcfg : NoWrap cfg) (hS : SInv g) (hobj : ∀ o, (g.obj o).win < g.wins.length) (hts : ∀ b, TB (g.bucket b).ts)
+    (hcfg : WNoWrap cfg) (hS : SInv g) (hobj : ∀ o, (g.obj o).win < g.wins.length) (hts : ∀ b, TB (g.bucket b).ts)
     (hl : LOk cfg g l) (ha : TickOK a)
     (hs : step cfg t g l a = some (g', l', obs)) : LOk cfg g' l' := by
   unfold step at hs
@@ -1219,7 +1219,7 @@ theorem step_lok {cfg : Config} {t : Tid} {g g' : CG} {l l' : L} {a : Act} {obs 
 /-! ## H. The invariant along runs -/
 
 theorem ginv_step {cfg : Config} {n : Nat} {lg : List (Tid × Obs)} {g g' : CG} {l : L} {obs : List Obs} (t : Tid)
-    (hcfg : NoWrap cfg) (hn : n < 2^61) (hS : SInv g) (hG : WGInv cfg n lg g) (hl : LOk cfg g l)
+    (hcfg : WNoWrap cfg) (hn : n < 2^61) (hS : SInv g) (hG : WGInv cfg n lg g) (hl : LOk cfg g l)
     (ho : ObjsStep g g') (he : WEff cfg g l g' obs) : WGInv cfg (n + 1) (lg ++ tag t obs) g' := by
   cases he with
   | quiet hb hw hq => exact ginv_quiet t hG ho hb hw hq
@@ -1239,7 +1239,7 @@ theorem winv_init (cfg : Config) (t1 t2 : Int) (h1 : TB t1) : WInv cfg 0 [] (ini
   ⟨sinv_init t1 t2, ginv_init cfg t1 t2 h1, fun _ => trivial⟩
 
 theorem winv_step {cfg : Config} {n : Nat} {lg : List (Tid × Obs)} {g g' : CG} {ls : Tid → L} {t : Tid} {a : Act}
-    {l' : L} {obs : List Obs} (hcfg : NoWrap cfg) (hn : n < 2^61) (h : WInv cfg n lg g ls) (ha : TickOK a)
+    {l' : L} {obs : List Obs} (hcfg : WNoWrap cfg) (hn : n < 2^61) (h : WInv cfg n lg g ls) (ha : TickOK a)
     (hs : step cfg t g (ls t) a = some (g', l', obs)) : WInv cfg (n + 1) (lg ++ tag t obs) g' (upd ls t l') := by
   obtain ⟨hS, hG, hL⟩ := h
   obtain ⟨ho, he⟩ := step_eff hs
@@ -1287,7 +1287,7 @@ theorem run_ind_n (M : Machine) (N : Nat) (A : Tid → M.Act → Prop)
       exact ⟨m, hm, by simpa [List.append_assoc] using h2⟩
 
 /-- **`WInv` holds along every guarded run**, with the log of the run and some step count below `2^61`. -/
-theorem winv_run (cfg : Config) (t1 t2 : Int) (s : List (Tid × Act)) (hcfg : NoWrap cfg) (hs : SchedOK t1 t2 s) :
+theorem winv_run (cfg : Config) (t1 t2 : Int) (s : List (Tid × Act)) (hcfg : WNoWrap cfg) (hs : SchedOK t1 t2 s) :
     ∃ n, n < 2^61 ∧
       WInv cfg n (run (M cfg t1 t2) (Conc.Config.init _) s).2 (run (M cfg t1 t2) (Conc.Config.init _) s).1.g
         (run (M cfg t1 t2) (Conc.Config.init _) s).1.l := by
